@@ -23,6 +23,19 @@ def handleService (_D : Dev) : List String → Option String
       | .error => "error"
     let s := s!"{rs} results={st.results.map (·.1)} errors={st.errors}"
     pure (two s s)
+  | ["svc_hist", hist] => do
+    -- a history of cached queries: key:maxProviders:maxErrors:outcomes;...
+    let qs ← (hist.splitOn ";").mapM fun q => match q.splitOn ":" with
+      | [k, mp, me, outs] => do
+        let os ← if outs = "-" then some [] else (outs.splitOn ",").mapM outcomeOfStr
+        pure ({ key := ← k.toNat?, maxProviders := ← mp.toNat?, maxErrors := ← me.toNat?, outcomes := os } : Query)
+      | _ => none
+    let rs := (runQueries [] qs).2
+    let s := ";".intercalate (rs.map fun r => match r with
+      | .value v => s!"value {v}"
+      | .falseRet => "false"
+      | .error => "error")
+    pure (two s s)
   | _ => none
 
 end Btc.Driver
